@@ -1,8 +1,9 @@
 /-
   The environment of the parallel chunker machine (`Model/ParChunk.lean`) for a concrete file:
   the abstract chunker `cut` is the single-stream chunker of `Model/Chunker.lean` started at a
-  position, and a chunk "has the null chunk's ID" when it consists of `max` zero bytes (the
-  digest is collision-free on the strings compared — DESIGN section 4).
+  position, and a chunk "has the null chunk's ID" when it is a chunk the chunker produces at its
+  start position and consists of `max` zero bytes (the digest is collision-free on the strings
+  compared — DESIGN section 4; only chunks that workers produced or synthesised are ever tested).
 -/
 import Desync.Model.ParChunk
 import Desync.Model.Chunker
@@ -15,7 +16,8 @@ def envOf (p : ChunkParams) (data : Bytes) (n : Nat) : Env :=
   { size := data.length
     max := p.max
     cut := fun pos => cutRoll p (data.drop pos)
-    isNull := fun c => c.size == p.max && decide (c.fin ≤ data.length) && allZero data c.start c.fin
+    isNull := fun c => c.size == p.max && decide (c.fin ≤ data.length) && allZero data c.start c.fin &&
+      cutRoll p (data.drop c.start) == c.size
     offsets := offsetsOf data.length p.max n }
 
 end Desync.Par
